@@ -69,7 +69,10 @@ OpSwapInt(w1, w2)   == [m |-> "swapint", w |-> w1, w2 |-> w2]
 OpRollback(w)       == [m |-> "rollback", w |-> w]
 
 (* std::is_nothrow_constructible<T, Arg>: int from anything; a payload only from T&& when its move is noexcept *)
-NothrowCtorFrom(alt, kind) == ~Tr(alt) \/ (kind = "move" /\ NoThrowMove(alt))
+(* (round 4) an alternative WITHOUT lifetime events whose value constructor may throw (UntrackedThrowAlts: Tv3 of set triv) is not *)
+(* nothrow-constructible from its argument, but it is nothrow-movable: assign_alt builds the temporary first                          *)
+UThrow(alt, kind) == ~Tr(alt) /\ CanThrow(alt, kind)
+NothrowCtorFrom(alt, kind) == (~Tr(alt) /\ ~UThrow(alt, kind)) \/ (Tr(alt) /\ kind = "move" /\ NoThrowMove(alt))
 
 (* assignment::emplace<I>(args) *)
 PEmplace(w, alt, kind, src, val, un) == <<OpDestroy(w), OpCtor(w, alt, kind, src, val, un), OpSet(w, alt)>>
@@ -80,6 +83,8 @@ PAssignAlt(w, alt, kind, src, val, un) ==
     THEN <<OpAssign(w, alt, kind, src, val, un)>>
     ELSE IF NothrowCtorFrom(alt, kind) \/ ~NoThrowMove(alt)
     THEN PEmplace(w, alt, kind, src, val, un)                                   \* emplace<I>(forward<Arg>(arg))
+    ELSE IF ~Tr(alt)                                                            \* a trivial temporary: no events, its value is val
+    THEN <<OpTmpCtor(alt, kind, src, val, un)>> \o PEmplace(w, alt, "move", NONE, val, un)
     ELSE <<OpTmpCtor(alt, kind, src, val, un)>>                                 \* emplace<I>(T(forward<Arg>(arg)))
            \o PEmplace(w, alt, "move", TMPO, 0, <<OpTmpDtor>> \o un) \o <<OpTmpDtor>>
 
@@ -161,7 +166,8 @@ EThrowEv(at, alt, kind) == [op |-> "EThrow", at |-> at, alt |-> alt, kind |-> IF
 NoEff == [idx |-> idx, cell |-> cell, argid |-> argid, tmpid |-> tmpid, fuse |-> fuse, e |-> Tau, expand |-> <<>>]
 
 CtorEff(w, alt, kind, src, val) ==         \* construct_alt into slot w
-    IF ~Tr(alt) THEN [NoEff EXCEPT !.cell = [cell EXCEPT ![w] = [id |-> 0, val |-> IntFrom(src, val)]]]
+    IF UThrow(alt, kind) /\ Fires(alt, kind) THEN [NoEff EXCEPT !.e = EThrowEv("ctor", alt, kind), !.fuse = 0]   \* (after scribbling over the storage of slot w)
+    ELSE IF ~Tr(alt) THEN [NoEff EXCEPT !.cell = [cell EXCEPT ![w] = [id |-> 0, val |-> IntFrom(src, val)]], !.fuse = FuseAfter(alt, kind)]
     ELSE IF Fires(alt, kind) THEN [NoEff EXCEPT !.e = EThrowEv("ctor", alt, kind), !.fuse = 0]
     ELSE [NoEff EXCEPT !.e = ECtorEv(alt, kind, src, Home(w), val),
                        !.cell = [cell EXCEPT ![w] = [id |-> nid + 1, val |-> 0]],
@@ -171,7 +177,8 @@ Eff(op) ==
     CASE op.m = "argctor" -> [NoEff EXCEPT !.e = ECtorEv(op.alt, "value", NONE, TEMP, op.val), !.argid = nid + 1]
       [] op.m = "argdtor" -> [NoEff EXCEPT !.e = [op |-> "EDtor", id |-> argid], !.argid = 0]
       [] op.m = "tmpctor" ->
-            IF Fires(op.alt, op.kind) THEN [NoEff EXCEPT !.e = EThrowEv("ctor", op.alt, op.kind), !.fuse = 0]
+            IF ~Tr(op.alt) /\ ~Fires(op.alt, op.kind) THEN [NoEff EXCEPT !.fuse = FuseAfter(op.alt, op.kind)]
+            ELSE IF Fires(op.alt, op.kind) THEN [NoEff EXCEPT !.e = EThrowEv("ctor", op.alt, op.kind), !.fuse = 0]
             ELSE [NoEff EXCEPT !.e = ECtorEv(op.alt, op.kind, op.src, TEMP, op.val), !.tmpid = nid + 1,
                                !.fuse = FuseAfter(op.alt, op.kind)]
       [] op.m = "tmpdtor" -> [NoEff EXCEPT !.e = [op |-> "EDtor", id |-> tmpid], !.tmpid = 0]
@@ -184,7 +191,8 @@ Eff(op) ==
       [] op.m = "setidx"  -> [NoEff EXCEPT !.idx = [idx EXCEPT ![op.w] = op.i]]
       [] op.m = "gsetidx" -> IF idx[op.src] = -1 THEN NoEff ELSE [NoEff EXCEPT !.idx = [idx EXCEPT ![op.w] = idx[op.src]]]
       [] op.m = "assign"  ->
-            IF ~Tr(op.alt) THEN [NoEff EXCEPT !.cell = [cell EXCEPT ![op.w].val = IntFrom(op.src, op.val)]]
+            IF UThrow(op.alt, op.kind) /\ Fires(op.alt, op.kind) THEN [NoEff EXCEPT !.e = EThrowEv("assign", op.alt, op.kind), !.fuse = 0]
+            ELSE IF ~Tr(op.alt) THEN [NoEff EXCEPT !.cell = [cell EXCEPT ![op.w].val = IntFrom(op.src, op.val)], !.fuse = FuseAfter(op.alt, op.kind)]
             ELSE IF Fires(op.alt, op.kind) THEN [NoEff EXCEPT !.e = EThrowEv("assign", op.alt, op.kind), !.fuse = 0]
             ELSE [NoEff EXCEPT !.e = [op |-> "EAssign", dst |-> cell[op.w].id, src |-> SrcId(op.src), kind |-> op.kind,
                                       val |-> IF op.kind = "value" THEN op.val ELSE ValOfId(SrcId(op.src))],
@@ -229,14 +237,20 @@ StRep(w) ==
           hi |-> HoldsMask(w), ht |-> HoldsMask(w), gi |-> HoldsMask(w), gt |-> HoldsMask(w),
           val |-> IF idx[w] >= 0 THEN ValIn(w) ELSE 0, id |-> IF idx[w] >= 0 THEN cell[w].id ELSE 0]
 
+PayloadRel(rel, a, b) ==                          \* the operators of the payload fixtures (driver.cpp: P<A,N>, Tv<A>; int never holds UNORD)
+    LET un == a = UNORD \/ b = UNORD IN
+    CASE rel = "eq" -> ~un /\ a = b  [] rel = "ne" -> un \/ a # b  [] rel = "lt" -> ~un /\ a < b
+      [] rel = "gt" -> ~un /\ a > b  [] rel = "le" -> ~un /\ a <= b [] rel = "ge" -> ~un /\ a >= b
 IRel(rel, x, y) ==                                \* operator== ... operator>= as written in the header
+    \* visit_value_at(index, op{}, lhs, rhs): the held alternative's OWN operator of the same name (PayloadRel: the fixtures' operators,
+    \* a partial order - the value UNORD is unordered with everything)
     LET vx == idx[x] = -1  vy == idx[y] = -1  ix == idx[x]  iy == idx[y]  a == ValIn(x)  b == ValIn(y) IN
-    CASE rel = "eq" -> IF ix # iy THEN FALSE ELSE IF vx THEN TRUE ELSE a = b
-      [] rel = "ne" -> IF ix # iy THEN TRUE ELSE IF vx THEN FALSE ELSE a # b
-      [] rel = "lt" -> IF vy THEN FALSE ELSE IF vx THEN TRUE ELSE IF ix < iy THEN TRUE ELSE IF ix > iy THEN FALSE ELSE a < b
-      [] rel = "gt" -> IF vx THEN FALSE ELSE IF vy THEN TRUE ELSE IF ix > iy THEN TRUE ELSE IF ix < iy THEN FALSE ELSE a > b
-      [] rel = "le" -> IF vx THEN TRUE ELSE IF vy THEN FALSE ELSE IF ix < iy THEN TRUE ELSE IF ix > iy THEN FALSE ELSE a <= b
-      [] rel = "ge" -> IF vy THEN TRUE ELSE IF vx THEN FALSE ELSE IF ix > iy THEN TRUE ELSE IF ix < iy THEN FALSE ELSE a >= b
+    CASE rel = "eq" -> IF ix # iy THEN FALSE ELSE IF vx THEN TRUE ELSE PayloadRel("eq", a, b)
+      [] rel = "ne" -> IF ix # iy THEN TRUE ELSE IF vx THEN FALSE ELSE PayloadRel("ne", a, b)
+      [] rel = "lt" -> IF vy THEN FALSE ELSE IF vx THEN TRUE ELSE IF ix < iy THEN TRUE ELSE IF ix > iy THEN FALSE ELSE PayloadRel("lt", a, b)
+      [] rel = "gt" -> IF vx THEN FALSE ELSE IF vy THEN TRUE ELSE IF ix > iy THEN TRUE ELSE IF ix < iy THEN FALSE ELSE PayloadRel("gt", a, b)
+      [] rel = "le" -> IF vx THEN TRUE ELSE IF vy THEN FALSE ELSE IF ix < iy THEN TRUE ELSE IF ix > iy THEN FALSE ELSE PayloadRel("le", a, b)
+      [] rel = "ge" -> IF vy THEN TRUE ELSE IF vx THEN FALSE ELSE IF ix > iy THEN TRUE ELSE IF ix < iy THEN FALSE ELSE PayloadRel("ge", a, b)
 
 IObsRes(c, a) ==
     CASE c \in {"Get", "XGet"} ->
